@@ -17,7 +17,7 @@ TRUSTED = ['Coq 8.16.1 kernel (coqc), vm_compute in the monitor Example', 'extra
            'modelled, not verified: utils/udp.go; kernel loss is excluded by counting reads through the hook']
 ASSUMPTIONS = ['the event order is the order of acquisition of the harness mutex (a linearisation of the real execution)',
                'goroutine scheduling is whatever the runtime produced in this run; the theorems cover every schedule of the model',
-               'soundness of the monitor with respect to the model is checked by evaluation, not proved for all schedules']
+               'monitor soundness (c17_monitor_sound) and meaning (c17_monitor_meaning) are theorems; that utils/udp.go refines the model receiver step by step is what the monitored traces sample']
 STREAMS = []
 
 
